@@ -812,7 +812,13 @@ func emptyMgmt(c pomCase, variant string) int {
 
 // shapes: layout variants that the writer of the unrepaired tree does not handle; each is switched on by the verif diff of its repair.
 // A variant is drawn from the pom part of the case line (its own generator per name, so that the other layout choices stay as they are).
-var shapes = map[string]bool{}
+var shapes = map[string]bool{
+	"exclusion-bar": true, // fix 028d4f1d: Write panicked (deps.dev cannot decode the exclusions attribute)
+	"empty-prop-selfclosing": true, // fix d980bd44: <sfx/> was patched into <sfx/>.1
+	"blank-type": true, // fix fe557d74: <type> </type> made the writer miss the dependency
+	"project-tag": true, // fix 16ecfbab: the start tag of <project> was searched as text
+	"foreign": true, // fix a91e06b6: sections were handled at any depth
+}
 
 func variantOn(c pomCase, name string, oneIn int) bool {
 	return shapes[name] && layoutRng(layoutKey(c)+"#"+name).Intn(oneIn) == 0
@@ -2063,7 +2069,7 @@ func runPch(c pchCase) (line string, reply string) {
 		var pus []result.PackageUpdate
 		var us []string
 		touched := map[int]bool{}
-		var sentTo []string
+		var sentTo, added []string
 		for i, di := range c.Ups {
 			d := c.Decls[di]
 			if d.Profile != "" && d.Level > 0 {
@@ -2075,7 +2081,15 @@ func runPch(c pchCase) (line string, reply string) {
 				pus = append(pus, result.PackageUpdate{Name: name, VersionTo: c.To[i], Type: ty, Transitive: true})
 				us = append(us, strings.Join([]string{hs(name), hs(""), hs(""), hs("management"), hs(""), hs(c.To[i])}, ":"))
 				sentTo = append(sentTo, c.To[i])
-				touched[d.Level] = true
+				if d.Mgmt {
+					touched[d.Level] = true // a dependencyManagement declaration (of the parent's profile) takes the dependencyManagement requirement
+				} else {
+					// fix b0b162fc: a dependencyManagement requirement is never written into a declaration outside dependencyManagement:
+					// the manifest gets a dependencyManagement entry of its own
+					touched[0] = true
+					g, a := splitGA(name)
+					added = append(added, strings.Join([]string{hs("management"), hs(g), hs(a), hs("jar"), hs(""), hs(c.To[i])}, ":"))
+				}
 				continue
 			}
 			for _, r := range reqList {
@@ -2131,7 +2145,7 @@ func runPch(c pchCase) (line string, reply string) {
 			return "r=ok-rereaderr"
 		}
 		after, _ := pchReqs(m2)
-		return fmt.Sprintf("r=ok chain=%s same=%s applied=%s", after, hx.B(same), applied)
+		return fmt.Sprintf("r=ok chain=%s same=%s applied=%s added=%s", after, hx.B(same), applied, hx.Join(added, ","))
 	})
 	return c.concrete() + " " + ups + " " + before, reply
 }
